@@ -30,10 +30,10 @@ def gen_ops(ctx):
     items.append(("sample:refl:prototype", "direct", str(proto), str(proto), None))
     for f in (inc if not quick else inc[:6]):
         items.append((f"sample:refl:{f.stem}", "direct", str(f), str(f), None))
-    n = 130 if quick else 1500
+    n = 110 if quick else 1500
     pairs, kinds = [], []
     for i in range(n):
-        s = L.Gen(rng).schema()
+        s = L.Gen(rng).schema(chain=(i % 5 == 4))
         if i % 4 == 0:
             pairs.append((s.tl(), s.tl()))
             kinds.append("refl")
